@@ -117,7 +117,7 @@ def random_bracket(R, maxtok: int = 7) -> str:
 # Parser-state coverage: WcParse carries state across tokens (after_start, in_list, inv_nest,
 # inv_ext, match_dot_dir, matchbase); enumerate short sequences of *tokens*, not characters.
 STATE_TOKS = ['a', '.', '/', '*', '**', '?', '[a]', '@(.a)', '!(b)', '?(x)', '*(.|a)', '+(a)', '@(a|.b)', '!(.)', '\\.', '..',
-              '|', '(', ')', '!(a|*(b))']
+              '|', '(', ')', '!(a|*(b))', '[!z-a]', '[z-a]', '\\/', '***']
 
 
 def token_sequences(maxlen: int, toks=None):
@@ -125,3 +125,15 @@ def token_sequences(maxlen: int, toks=None):
     for L in range(1, maxlen + 1):
         for t in itertools.product(toks, repeat=L):
             yield ''.join(t)
+
+
+WIN_PREFIXES = ['//?/', '//./', '//', '\\\\\\\\?\\\\', 'c:', 'C:/', '']
+WIN_COMPS = ['GLOBAL', 'global', 'UNC', 'unc', 'h', 's*', 'c:', 'x', 'a[b]c', 'd!e', '?', '.']
+
+
+def win_drive_patterns(maxcomp: int = 4):
+    """drive / UNC / device shapes: prefix + up to maxcomp components"""
+    for pre in WIN_PREFIXES:
+        for L in range(0, maxcomp + 1):
+            for t in itertools.product(WIN_COMPS, repeat=L):
+                yield pre + '/'.join(t)
